@@ -14,6 +14,10 @@ pub struct C04;
 /// child names of the small-scope search: collisions after PascalCase (a/A), concatenations (a+b = ab), a keyword
 pub const SMALL_NAMES: &[&str] = &["a", "b", "ab", "A", "type"];
 
+/// names of the flat-element search: three spellings of one identifier, the numeric suffixes and `_attr` forms the
+/// identifier map would hand out, the text field's names, a keyword
+pub const FLAT_NAMES: &[&str] = &["foo", "Foo", "FOO", "foo_1", "foo_2", "foo-2", "foo_attr", "foo_attr_1", "text", "text_content", "type", "foo_type"];
+
 pub const KEYWORDS: &[&str] = &[
     "as", "break", "const", "continue", "crate", "else", "enum", "extern", "false", "fn", "for", "if", "impl", "in", "let", "loop", "match", "mod",
     "move", "mut", "pub", "ref", "return", "self", "Self", "static", "struct", "super", "trait", "true", "type", "unsafe", "use", "where", "while",
@@ -175,6 +179,64 @@ impl Property for C04 {
         if let Some((e, docs)) = fail {
             return Err((Failure::new(format!("small-scope exhaustive search: {}", e)).with_detail(json!({"documents": docs})), json!({"small_scope_documents": docs})));
         }
+        // flat elements: every ordered sequence of up to 4 distinct children and up to 2 attributes over names whose
+        // identifiers collide with each other and with the suffixes the identifier map hands out
+        let max_children = match tier {
+            Tier::Quick => 4,
+            Tier::Thorough => 5,
+        };
+        let mut flat: Vec<crate::model::Node> = Vec::new();
+        fn seqs(names: &[&str], max: usize, cur: &mut Vec<usize>, out: &mut Vec<Vec<usize>>) {
+            out.push(cur.clone());
+            if cur.len() == max {
+                return;
+            }
+            for i in 0..names.len() {
+                if cur.contains(&i) {
+                    continue;
+                }
+                cur.push(i);
+                seqs(names, max, cur, out);
+                cur.pop();
+            }
+        }
+        let mut child_seqs = Vec::new();
+        seqs(FLAT_NAMES, max_children, &mut Vec::new(), &mut child_seqs);
+        let mut attr_seqs = Vec::new();
+        seqs(FLAT_NAMES, 2, &mut Vec::new(), &mut attr_seqs);
+        for cs in &child_seqs {
+            for (ai, asq) in attr_seqs.iter().enumerate() {
+                // thin out the attribute dimension for long child sequences
+                if cs.len() >= 4 && ai % 5 != 0 {
+                    continue;
+                }
+                for text in [false, true] {
+                    let mut items: Vec<crate::model::Item> = Vec::new();
+                    if text {
+                        items.push(crate::model::Item::Chars { blank: false });
+                    }
+                    for c in cs {
+                        items.push(crate::model::Item::Child(crate::model::Node { name: FLAT_NAMES[*c].to_string(), attrs: vec![], items: vec![] }));
+                    }
+                    flat.push(crate::model::Node { name: "foo".to_string(), attrs: asq.iter().map(|a| FLAT_NAMES[*a].to_string()).collect(), items });
+                }
+            }
+        }
+        let (evals, nts, fail) = super::smallscope::run_tuples_over(flat, 1, |_docs, bytes| {
+            let root = crate::sut::parse_seq(bytes).map_err(|(i, e)| format!("document #{} rejected: {}", i + 1, e))?;
+            for by_name in [false, true] {
+                let src = root.to_serde_struct(&crate::sut::opts_quick(by_name, ""));
+                let defs = crate::rendered::read_lines(&src).map_err(|e| format!("output unreadable: {}\n{}", e, src))?;
+                well_formed(&defs).map_err(|e| format!("{}\n{}", e, src))?;
+            }
+            Ok(true)
+        });
+        st.evaluations += evals;
+        st.nontrivial_enumerated += nts;
+        st.add("exhaustive.flat_elements_over_suffix_trap_names", evals);
+        if let Some((e, docs)) = fail {
+            return Err((Failure::new(format!("small-scope exhaustive search (flat element): {}", e)).with_detail(json!({"documents": docs})), json!({"small_scope_documents": docs})));
+        }
         Ok(())
     }
     fn replay_custom(&self, payload: &Value) -> Result<(), Failure> {
@@ -191,7 +253,7 @@ impl Property for C04 {
         true
     }
     fn rule(&self) -> String {
-        "small-scope exhaustive: every document with root r and up to 4 (thorough: 5) elements over the child names a, b, ab, A, type (attribute k, optional text), both presets; sampled: tape-decoded document sequences over adversarial name pools (keywords in any case, case and separator variants, prefixed and multi-colon names, concatenation sets, String/Option/Vec/Serialize..., identifier-map traps such as text/text_content/foo_1/type_attr, non-ASCII, digits; names may clash after prefix removal; one document in 25 a chain up to depth 60), both presets and both sort orders. The output is parsed with syn (and the strict line reader, cross-checked) and checked for: only pub structs with pub named fields, unique legal non-keyword struct names not shadowing String/Option/Vec, unique legal non-keyword field names per struct, field types String or a struct of the same output, every non-first struct used by exactly one field and the first by none. Non-trivial = the pool holds names that collide after normalisation, a concatenation clash, or a keyword/std/trap name, and the output has three or more structs; distinct by hash of documents and options.".into()
+        "small-scope exhaustive: every document with root r and up to 4 (thorough: 5) elements over the child names a, b, ab, A, type (attribute k, optional text), both presets; every flat element `foo` with up to 4 (thorough: 5) distinct children, up to 2 attributes and optional text over 12 names whose identifiers collide with each other and with the suffixes the identifier map hands out (foo, Foo, FOO, foo_1, foo_2, foo-2, foo_attr, foo_attr_1, text, text_content, type, foo_type), both sort orders; sampled: tape-decoded document sequences over adversarial name pools (keywords in any case, case and separator variants, prefixed and multi-colon names, concatenation sets, String/Option/Vec/Serialize..., identifier-map traps such as text/text_content/foo_1/type_attr, non-ASCII, digits; names may clash after prefix removal; one document in 25 a chain up to depth 60), both presets and both sort orders. The output is parsed with syn (and the strict line reader, cross-checked) and checked for: only pub structs with pub named fields, unique legal non-keyword struct names not shadowing String/Option/Vec, unique legal non-keyword field names per struct, field types String or a struct of the same output, every non-first struct used by exactly one field and the first by none. Non-trivial = the pool holds names that collide after normalisation, a concatenation clash, or a keyword/std/trap name, and the output has three or more structs; distinct by hash of documents and options.".into()
     }
     fn assumptions(&self) -> Vec<String> {
         vec![
